@@ -1,3 +1,263 @@
+import Bch.Proofs.TxSort
+/-
+C18 — BIP69 sorting is a correct, non-destructive, idempotent permutation.
+
+Model: `Bch.Model.TxSort` (`/repo/txsort/txsort.go`). A transaction is (inputs, outputs); every field of an
+input other than (hash, index) is carried along in `tag`, so "same inputs and otherwise identical fields" is
+`List.Perm` on whole `TxIn`/`TxOut` records. The specification orders are defined in `Bch.Proofs.TxSort`:
+
+* `Spec.lexLt a b`      — byte-wise lexicographic, proper prefix smaller (∃ common prefix …)
+* `Spec.inLt a b`       — (toNatBE hash.reverse, index) lexicographic   [hashes of one common length, e.g. 32]
+* `Spec.inLtBytes a b`  — the same order phrased on bytes, valid for hashes of any lengths
+* `Spec.outLt a b`      — (value, script) lexicographic, scripts by `Spec.lexLt`
+* `Sorted less l`       — `l.Pairwise (fun a b => less b a = false)`
+* `SortContract less srt` — `∀ l, (srt l).Perm l ∧ Sorted less (srt l)`: the contract of Go's `sort.Sort`
+
+Non-destructiveness of `Sort` (deep copy) is a heap-frame statement outside this functional model; it is
+covered by the differential harness (aliasing probe).
+-/
 namespace Bch.Props.C18
-theorem placeholder : True := trivial
+open Bch Bch.Bytes Bch.Model.TxSort Bch.Proofs.TxSort
+
+/-! ### the byte comparator -/
+
+/-- `bytes.Compare(a,b) < 0` is byte-wise lexicographic order in which a proper prefix is smaller -/
+theorem bytesLt_iff (a b : Bytes) : bytesLt a b = true ↔ Spec.lexLt a b :=
+  Bch.Proofs.TxSort.bytesLt_iff a b
+
+/-- … and coincides with core Lean's lexicographic `<` on `List UInt8` -/
+theorem bytesLt_iff_lt (a b : Bytes) : bytesLt a b = true ↔ a < b :=
+  Bch.Proofs.TxSort.bytesLt_iff_lt a b
+
+/-- `bytesLt` is a strict total order: irreflexive, transitive, total -/
+theorem bytesLt_strictTotal :
+    (∀ a, bytesLt a a = false) ∧
+    (∀ a b c, bytesLt a b = true → bytesLt b c = true → bytesLt a c = true) ∧
+    (∀ a b, a = b ∨ bytesLt a b = true ∨ bytesLt b a = true) :=
+  ⟨bytesLt_irrefl, bytesLt_trans, bytesLt_total⟩
+
+/-- on equal-length byte strings `bytesLt` is `<` of the big-endian numbers -/
+theorem bytesLt_iff_toNatBE (a b : Bytes) (h : a.length = b.length) :
+    bytesLt a b = true ↔ toNatBE a < toNatBE b :=
+  Bch.Proofs.TxSort.bytesLt_iff_toNatBE a b h
+
+example : ([1, 2] : Bytes).length = ([1, 3] : Bytes).length ∧ bytesLt [1, 2] [1, 3] = true ∧
+    bytesLt [1] [1, 0] = true ∧ bytesLt [2] [1, 0] = false := by decide
+
+/-! ### the two BIP69 comparators -/
+
+/-- input comparator = (previous txid as a big-endian number, then output index), for 32-byte hashes -/
+theorem lessIn_iff (a b : TxIn) (ha : a.hash.length = 32) (hb : b.hash.length = 32) :
+    lessIn a b = true ↔
+      toNatBE a.hash.reverse < toNatBE b.hash.reverse ∨
+      (toNatBE a.hash.reverse = toNatBE b.hash.reverse ∧ a.index < b.index) :=
+  Bch.Proofs.TxSort.lessIn_iff a b (ha.trans hb.symm)
+
+/-- the same for any two hashes of one common length (`Spec.inLt` is the disjunction above) -/
+theorem lessIn_iff_of_length_eq (a b : TxIn) (h : a.hash.length = b.hash.length) :
+    lessIn a b = true ↔ Spec.inLt a b :=
+  Bch.Proofs.TxSort.lessIn_iff a b h
+
+/-- … as `Prod.Lex` on the key pair -/
+theorem lessIn_iff_prodLex (a b : TxIn) (h : a.hash.length = b.hash.length) :
+    lessIn a b = true ↔
+      Prod.Lex (· < ·) (· < ·) (toNatBE a.hash.reverse, a.index) (toNatBE b.hash.reverse, b.index) := by
+  rw [Bch.Proofs.TxSort.lessIn_iff a b h, Prod.lex_def]; rfl
+
+/-- with no length assumption at all: reversed hash bytes lexicographically, then index -/
+theorem lessIn_iff_bytes (a b : TxIn) :
+    lessIn a b = true ↔
+      Spec.lexLt a.hash.reverse b.hash.reverse ∨ (a.hash = b.hash ∧ a.index < b.index) :=
+  Bch.Proofs.TxSort.lessIn_iff_bytes a b
+
+example : ∃ a b : TxIn, a.hash.length = 32 ∧ b.hash.length = 32 ∧ lessIn a b = true ∧ a.hash ≠ b.hash :=
+  ⟨⟨List.replicate 32 0, 5, 0⟩, ⟨List.replicate 31 0 ++ [1], 0, 0⟩, by decide⟩
+
+/-- output comparator = (amount, then script bytes lexicographically) -/
+theorem lessOut_iff (a b : TxOut) :
+    lessOut a b = true ↔ a.value < b.value ∨ (a.value = b.value ∧ Spec.lexLt a.script b.script) :=
+  Bch.Proofs.TxSort.lessOut_iff a b
+
+theorem lessOut_iff_prodLex (a b : TxOut) :
+    lessOut a b = true ↔ Prod.Lex (· < ·) Spec.lexLt (a.value, a.script) (b.value, b.script) := by
+  rw [Bch.Proofs.TxSort.lessOut_iff a b, Prod.lex_def]; rfl
+
+/-- both comparators are strict weak orders (`irrefl`, `trans`, `incomp_trans`) -/
+theorem lessIn_strictWeak :
+    (∀ a, lessIn a a = false) ∧
+    (∀ a b c, lessIn a b = true → lessIn b c = true → lessIn a c = true) ∧
+    (∀ a b c, lessIn a b = false → lessIn b a = false → lessIn b c = false → lessIn c b = false →
+      lessIn a c = false ∧ lessIn c a = false) :=
+  ⟨strictWeak_lessIn.irrefl, strictWeak_lessIn.trans, strictWeak_lessIn.incomp_trans⟩
+
+theorem lessOut_strictWeak :
+    (∀ a, lessOut a a = false) ∧
+    (∀ a b c, lessOut a b = true → lessOut b c = true → lessOut a c = true) ∧
+    (∀ a b c, lessOut a b = false → lessOut b a = false → lessOut b c = false → lessOut c b = false →
+      lessOut a c = false ∧ lessOut c a = false) :=
+  ⟨strictWeak_lessOut.irrefl, strictWeak_lessOut.trans, strictWeak_lessOut.incomp_trans⟩
+
+/-- incomparable inputs are exactly those with equal (hash, index); incomparable outputs are equal -/
+theorem lessIn_incomp_iff (a b : TxIn) :
+    (lessIn a b = false ∧ lessIn b a = false) ↔ (a.hash = b.hash ∧ a.index = b.index) := by
+  rw [keyOrder_lessIn.incomp_iff, inKey_eq_iff]
+
+theorem lessOut_incomp_iff (a b : TxOut) : (lessOut a b = false ∧ lessOut b a = false) ↔ a = b := by
+  rw [keyOrder_lessOut.incomp_iff, outKey_eq_iff]
+
+/-! ### insertion sort (the model's `sort.Sort`) -/
+
+theorem sortBy_perm {α : Type} (less : α → α → Bool) (l : List α) : (sortBy less l).Perm l :=
+  Bch.Proofs.TxSort.sortBy_perm less l
+
+/-- for a strict weak order the result passes `sort.IsSorted` and is pairwise non-decreasing -/
+theorem sortBy_sorted {α : Type} (less : α → α → Bool) (h : StrictWeak less) (l : List α) :
+    isSortedBy less (sortBy less l) = true ∧
+    (sortBy less l).Pairwise (fun a b => ¬ less b a = true) := by
+  refine ⟨Bch.Proofs.TxSort.sortBy_sorted h l, ?_⟩
+  exact (sortBy_pairwise h l).imp (fun hba => by simp [hba])
+
+/-- stability: for every `a`, the elements incomparable to `a` keep their relative order -/
+theorem sortBy_stable {α : Type} (less : α → α → Bool) (h : StrictWeak less) (a : α) (l : List α) :
+    (sortBy less l).filter (fun b => !less a b && !less b a) =
+      l.filter (fun b => !less a b && !less b a) :=
+  Bch.Proofs.TxSort.sortBy_stable h a l
+
+-- the hypothesis `StrictWeak less` is satisfiable by the two comparators in question
+example : StrictWeak lessIn ∧ StrictWeak lessOut := ⟨strictWeak_lessIn, strictWeak_lessOut⟩
+
+/-! ### headline: `SortTx` -/
+
+/-- a small transaction used in the non-vacuity examples -/
+def exTx : Tx :=
+  ⟨[⟨[0, 1], 0, 7⟩, ⟨[1, 0], 1, 8⟩, ⟨[1, 0], 0, 9⟩, ⟨[0, 1], 0, 10⟩],
+   [⟨5, [1]⟩, ⟨5, []⟩, ⟨-1, [9, 9]⟩, ⟨5, [0, 200]⟩]⟩
+
+
+
+/-- **C18_sort.** The sorted transaction has the same inputs and outputs (as multisets of whole records) and
+    both lists are pairwise non-decreasing in the BIP69 keys. No assumption on the transaction; the input order
+    is phrased on the reversed hash bytes (`Spec.inLtBytes`), which for equal-length hashes is the big-endian
+    numeric order — see `C18_sort_be` . -/
+theorem C18_sort (tx : Tx) :
+    (SortTx tx).ins.Perm tx.ins ∧ (SortTx tx).outs.Perm tx.outs ∧
+    (SortTx tx).ins.Pairwise (fun a b => ¬ Spec.inLtBytes b a) ∧
+    (SortTx tx).outs.Pairwise (fun a b => ¬ Spec.outLt b a) :=
+  ⟨Bch.Proofs.TxSort.sortBy_perm _ _, Bch.Proofs.TxSort.sortBy_perm _ _,
+   (sorted_lessIn_iff_bytes _).1 (sortBy_pairwise strictWeak_lessIn _),
+   (sorted_lessOut_iff _).1 (sortBy_pairwise strictWeak_lessOut _)⟩
+
+/-- **C18_sort, numeric form.** If all input hashes have one length `n` (32 on the wire), the inputs of the sorted
+    transaction are non-decreasing in (txid as big-endian number, index). -/
+theorem C18_sort_be (tx : Tx) (n : Nat) (hn : ∀ i ∈ tx.ins, i.hash.length = n) :
+    (SortTx tx).ins.Perm tx.ins ∧ (SortTx tx).outs.Perm tx.outs ∧
+    (SortTx tx).ins.Pairwise (fun a b => ¬ Spec.inLt b a) ∧
+    (SortTx tx).outs.Pairwise (fun a b => ¬ Spec.outLt b a) := by
+  have hp : (SortTx tx).ins.Perm tx.ins := Bch.Proofs.TxSort.sortBy_perm _ _
+  refine ⟨hp, (C18_sort tx).2.1, ?_, (C18_sort tx).2.2.2⟩
+  exact (sorted_lessIn_iff _ n (fun i hi => hn i (hp.mem_iff.1 hi))).1
+    (sortBy_pairwise strictWeak_lessIn _)
+
+example : ∃ tx : Tx, tx.ins.length = 3 ∧ (∀ i ∈ tx.ins, i.hash.length = 2) ∧ SortTx tx ≠ tx :=
+  ⟨⟨[⟨[0, 1], 0, 7⟩, ⟨[1, 0], 1, 8⟩, ⟨[1, 0], 0, 9⟩], []⟩, by decide⟩
+
+/-- **C18_sort for an arbitrary correct `sort.Sort`.** The Go code calls `sort.Sort`, whose contract is
+    `SortContract` (a permutation of its input that is sorted w.r.t. `Less`). For *every* pair of functions
+    meeting the contract the result has the properties of `C18_sort`, its input list has the same (hash, index)
+    sequence as the model's insertion sort, and its output list is *equal* to the model's. -/
+theorem C18_sort_any (srtIn : List TxIn → List TxIn) (srtOut : List TxOut → List TxOut)
+    (hIn : SortContract lessIn srtIn) (hOut : SortContract lessOut srtOut) (tx : Tx) :
+    (srtIn tx.ins).Perm tx.ins ∧ (srtOut tx.outs).Perm tx.outs ∧
+    (srtIn tx.ins).Pairwise (fun a b => ¬ Spec.inLtBytes b a) ∧
+    (srtOut tx.outs).Pairwise (fun a b => ¬ Spec.outLt b a) ∧
+    (srtIn tx.ins).map (fun i => (i.hash, i.index)) = (SortTx tx).ins.map (fun i => (i.hash, i.index)) ∧
+    srtOut tx.outs = (SortTx tx).outs := by
+  refine ⟨(hIn _).1, (hOut _).1, (sorted_lessIn_iff_bytes _).1 (hIn _).2,
+    (sorted_lessOut_iff _).1 (hOut _).2, ?_, ?_⟩
+  · have hk := sorted_perm_keys_eq keyOrder_lessIn
+      ((hIn tx.ins).1.trans (Bch.Proofs.TxSort.sortBy_perm lessIn tx.ins).symm)
+      (hIn tx.ins).2 (sortBy_pairwise strictWeak_lessIn tx.ins)
+    have := congrArg (List.map (fun k : Bytes × Nat => (k.1.reverse, k.2))) hk
+    simpa [inKey, SortTx, Function.comp_def] using this
+  · exact sorted_perm_eq keyOrder_lessOut (fun a b => (outKey_eq_iff a b).1)
+      ((hOut tx.outs).1.trans (Bch.Proofs.TxSort.sortBy_perm lessOut tx.outs).symm)
+      (hOut tx.outs).2 (sortBy_pairwise strictWeak_lessOut tx.outs)
+
+-- the contract is satisfiable: the model's insertion sort meets it
+example : SortContract lessIn (sortBy lessIn) ∧ SortContract lessOut (sortBy lessOut) :=
+  ⟨sortBy_contract strictWeak_lessIn, sortBy_contract strictWeak_lessOut⟩
+
+/-- **Uniqueness of a sorted permutation up to equal keys**: two lists that are permutations of each other and
+    both sorted have the same (hash, index) sequence (inputs) / are equal (outputs). -/
+theorem C18_sort_unique_keys :
+    (∀ l1 l2 : List TxIn, l1.Perm l2 → Sorted lessIn l1 → Sorted lessIn l2 →
+      l1.map (fun i => (i.hash, i.index)) = l2.map (fun i => (i.hash, i.index))) ∧
+    (∀ l1 l2 : List TxOut, l1.Perm l2 → Sorted lessOut l1 → Sorted lessOut l2 → l1 = l2) := by
+  constructor
+  · intro l1 l2 hp h1 h2
+    have hk := sorted_perm_keys_eq keyOrder_lessIn hp h1 h2
+    have := congrArg (List.map (fun k : Bytes × Nat => (k.1.reverse, k.2))) hk
+    simpa [inKey, Function.comp_def] using this
+  · intro l1 l2 hp h1 h2
+    exact sorted_perm_eq keyOrder_lessOut (fun a b => (outKey_eq_iff a b).1) hp h1 h2
+
+-- two different sorted permutations of each other (they differ only in the order of two inputs with equal keys)
+example : ([⟨[1], 0, 7⟩, ⟨[1], 0, 8⟩] : List TxIn).Perm [⟨[1], 0, 8⟩, ⟨[1], 0, 7⟩] ∧
+    isSortedBy lessIn [⟨[1], 0, 7⟩, ⟨[1], 0, 8⟩] = true ∧ isSortedBy lessIn [⟨[1], 0, 8⟩, ⟨[1], 0, 7⟩] = true ∧
+    ([⟨[1], 0, 7⟩, ⟨[1], 0, 8⟩] : List TxIn) ≠ [⟨[1], 0, 8⟩, ⟨[1], 0, 7⟩] :=
+  ⟨List.Perm.swap _ _ _, by decide, by decide, by decide⟩
+
+/-- **C18_isSorted_iff.** `IsSorted` (Go's adjacent-pair check) is true exactly for transactions whose two lists
+    are pairwise non-decreasing in the BIP69 keys. -/
+theorem C18_isSorted_iff (tx : Tx) :
+    IsSorted tx = true ↔
+      tx.ins.Pairwise (fun a b => ¬ Spec.inLtBytes b a) ∧ tx.outs.Pairwise (fun a b => ¬ Spec.outLt b a) := by
+  unfold IsSorted
+  rw [Bool.and_eq_true, isSortedBy_iff strictWeak_lessIn, isSortedBy_iff strictWeak_lessOut,
+    sorted_lessIn_iff_bytes, sorted_lessOut_iff]
+
+/-- numeric form for hashes of one common length -/
+theorem C18_isSorted_iff_be (tx : Tx) (n : Nat) (hn : ∀ i ∈ tx.ins, i.hash.length = n) :
+    IsSorted tx = true ↔
+      tx.ins.Pairwise (fun a b => ¬ Spec.inLt b a) ∧ tx.outs.Pairwise (fun a b => ¬ Spec.outLt b a) := by
+  unfold IsSorted
+  rw [Bool.and_eq_true, isSortedBy_iff strictWeak_lessIn, isSortedBy_iff strictWeak_lessOut,
+    sorted_lessIn_iff _ n hn, sorted_lessOut_iff]
+
+example : (∀ i ∈ exTx.ins, i.hash.length = 2) ∧ IsSorted exTx = false ∧ IsSorted (SortTx exTx) = true := by
+  decide
+
+/-- **C18_idempotent.** A sorted transaction passes `IsSorted`, sorting an already sorted transaction changes
+    nothing, hence sorting twice is sorting once. -/
+theorem C18_idempotent (tx : Tx) :
+    IsSorted (SortTx tx) = true ∧ SortTx (SortTx tx) = SortTx tx ∧
+    (IsSorted tx = true → SortTx tx = tx) := by
+  have hfix : ∀ t : Tx, IsSorted t = true → SortTx t = t := by
+    intro t ht
+    unfold IsSorted at ht
+    rw [Bool.and_eq_true, isSortedBy_iff strictWeak_lessIn, isSortedBy_iff strictWeak_lessOut] at ht
+    cases t with
+    | mk ins outs =>
+      simp only [SortTx]
+      rw [sortBy_of_sorted lessIn ins ht.1, sortBy_of_sorted lessOut outs ht.2]
+  have hs : IsSorted (SortTx tx) = true := by
+    unfold IsSorted SortTx
+    rw [Bool.and_eq_true]
+    exact ⟨Bch.Proofs.TxSort.sortBy_sorted strictWeak_lessIn _,
+      Bch.Proofs.TxSort.sortBy_sorted strictWeak_lessOut _⟩
+  exact ⟨hs, hfix _ hs, hfix tx⟩
+
+/-- `IsSorted tx ↔ SortTx tx = tx` -/
+theorem C18_isSorted_iff_fixed (tx : Tx) : IsSorted tx = true ↔ SortTx tx = tx :=
+  ⟨(C18_idempotent tx).2.2, fun h => h ▸ (C18_idempotent tx).1⟩
+
+/-! ### non-vacuity: concrete transactions -/
+
+-- last hash byte is most significant; ties keep their order (tags 7, 10); prefix scripts first; negative amounts first
+example : SortTx exTx =
+    ⟨[⟨[1, 0], 0, 9⟩, ⟨[1, 0], 1, 8⟩, ⟨[0, 1], 0, 7⟩, ⟨[0, 1], 0, 10⟩],
+     [⟨-1, [9, 9]⟩, ⟨5, []⟩, ⟨5, [0, 200]⟩, ⟨5, [1]⟩]⟩ := by decide
+example : IsSorted exTx = false ∧ IsSorted (SortTx exTx) = true := by decide
+example : IsSorted ⟨[], []⟩ = true := by decide
+
 end Bch.Props.C18
